@@ -138,6 +138,21 @@ def run(tier):
             ok = np.nanmax(np.abs(a1)) <= 1 + 1e-12 and np.nanmax(a1 ** 2 + b1 ** 2) <= 1 + 1e-12
             if not ok:
                 chk.violation("moment-bounds-float", "moments of a non-negative spectrum exceed their bounds", ctx)
+            # definitional clause on the general grid (floating point): e(f) and the four moments are the sums of Directional.tla
+            # with the wrapped forward bin widths (every gap of these grids is below 180 degrees) - this is what reaches uniform
+            # grids whose first direction is not a whole number of bins, which no octant grid of the exact part can be
+            wref = np.diff(np.append(dirs, dirs[0])) % 360.0
+            th = np.deg2rad(dirs)
+            with np.errstate(all="ignore"):
+                eref = np.nansum(vd * wref, axis=-1)
+                refs = {"e": eref, "a1": np.nansum(vd * wref * np.cos(th), axis=-1) / eref, "b1": np.nansum(vd * wref * np.sin(th), axis=-1) / eref,
+                        "a2": np.nansum(vd * wref * np.cos(2 * th), axis=-1) / eref, "b2": np.nansum(vd * wref * np.sin(2 * th), axis=-1) / eref}
+                for name, ref in refs.items():
+                    got = np.asarray(getattr(s2, name).values, dtype="float64")
+                    if got.shape != ref.shape or not np.allclose(got, ref, rtol=1e-9, atol=1e-11, equal_nan=True):
+                        chk.violation("definition-float:%s" % name, "%s of a 2D spectrum on a general direction grid is not the weighted sum of its definition" % name,
+                                      dict(ctx, dirs=[float(x) for x in dirs], worst=float(np.nanmax(np.abs(got - ref))) if got.shape == ref.shape else "shape"))
+            chk.add("definition_float_grids")
             nontrivial += 1
 
         # code -> spec: widths and e(f) on random integer grids validated by TLC ----------------------------------------
